@@ -5,7 +5,6 @@
  *    item[2*i] = theitem[i].data, item[2*i+1] = theitem[i].info;  key[2*g] = thekey[g].info, key[2*g+1] = thekey[g].idx
  * (both structs are two ints, no padding). */
 #include "verif.h"
-#include "rep.h"
 
 /* `throw SPxException("Invalid index");`  ->  verif_throw(); unreachable.  verif_throw() carries the obligation
  * "no exception": every contract in this unit has a precondition under which DataSet must not throw. */
@@ -110,19 +109,13 @@ struct DataSetHost
    }
 };
 
-/* The wrapper builds typed arrays Item[CAP], DataKey[CAP] from the raw int arrays of the C contract, cell by
- * cell and without a loop (rep.h), runs the real body on them and copies them back. */
-#define CPIN(i)  if((i) < themax) { items_[i].data = item[2 * (i)]; items_[i].info = item[2 * (i) + 1]; \
-                                    keys_[i].info = key[2 * (i)]; keys_[i].idx = key[2 * (i) + 1]; }
-#define CPOUT(i) if((i) < themax) { item[2 * (i)] = items_[i].data; item[2 * (i) + 1] = items_[i].info; \
-                                    key[2 * (i)] = keys_[i].info; key[2 * (i) + 1] = keys_[i].idx; }
-#define MKSET(s) DataSetHost s; DataSetHost::Item items_[CAP]; DataKey keys_[CAP]; s.theitem = items_; s.thekey = keys_; s.themax = themax; \
-   s.thesize = *thesize; s.thenum = *thenum; s.firstfree = *firstfree; REP_DO(CPIN)
-#define PUTSET(s) *thesize = s.thesize; *thenum = s.thenum; *firstfree = s.firstfree; REP_DO(CPOUT)
+#define MKSET(s) DataSetHost s; s.theitem = (DataSetHost::Item*)item; s.thekey = (DataKey*)key; s.themax = themax; \
+   s.thesize = *thesize; s.thenum = *thenum; s.firstfree = *firstfree
+#define PUTSET(s) *thesize = s.thesize; *thenum = s.thenum; *firstfree = s.firstfree
 
 #ifdef INST_create
 /* returns 1 iff the pointer handed out is the data field of the cell named by the new key */
-extern "C" int w_create(int* item, int* key, int themax, int* thesize, int* thenum, int* firstfree, int* newidx, int usekey, const int* rank)
+extern "C" int w_create(long long* item, long long* key, int themax, int* thesize, int* thenum, int* firstfree, int* newidx, int usekey, const int* rank)
 {
    MKSET(s);
    DataKey k;
@@ -141,7 +134,7 @@ extern "C" int w_create(int* item, int* key, int themax, int* thesize, int* then
 #endif
 
 #ifdef INST_add
-extern "C" void w_add(int* item, int* key, int themax, int* thesize, int* thenum, int* firstfree, int* newidx, int usekey, int val, const int* rank)
+extern "C" void w_add(long long* item, long long* key, int themax, int* thesize, int* thenum, int* firstfree, int* newidx, int usekey, int val, const int* rank)
 {
    MKSET(s);
    DataKey k;
@@ -159,7 +152,7 @@ extern "C" void w_add(int* item, int* key, int themax, int* thesize, int* thenum
 
 #ifdef INST_lookup
 /* number(key(n)), key(number(k)), has(k), has(n), operator[] */
-extern "C" void w_lookup(int* item, int* key, int themax, int* thesize, int* thenum, int* firstfree, int n, int kidx,
+extern "C" void w_lookup(long long* item, long long* key, int themax, int* thesize, int* thenum, int* firstfree, int n, int kidx,
                          int* out_keyidx, int* out_num_of_key_n, int* out_num_of_k, int* out_has_k, int* out_has_n,
                          int* out_same_elem, int* out_val_k, const int* rank)
 {
@@ -178,7 +171,7 @@ extern "C" void w_lookup(int* item, int* key, int themax, int* thesize, int* the
 #endif
 
 #ifdef INST_remove1
-extern "C" void w_remove1(int* item, int* key, int themax, int* thesize, int* thenum, int* firstfree, int removenum, int bykey, const int* rank)
+extern "C" void w_remove1(long long* item, long long* key, int themax, int* thesize, int* thenum, int* firstfree, int removenum, int bykey, const int* rank)
 {
    MKSET(s);
    if(bykey)
@@ -193,7 +186,7 @@ extern "C" void w_remove1(int* item, int* key, int themax, int* thesize, int* th
 #endif
 
 #ifdef INST_removePerm
-extern "C" void w_removePerm(int* item, int* key, int themax, int* thesize, int* thenum, int* firstfree, int* perm)
+extern "C" void w_removePerm(long long* item, long long* key, int themax, int* thesize, int* thenum, int* firstfree, int* perm)
 {
    MKSET(s);
    s.remove(perm);
@@ -202,7 +195,7 @@ extern "C" void w_removePerm(int* item, int* key, int themax, int* thesize, int*
 #endif
 
 #ifdef INST_removeNums
-extern "C" void w_removeNums(int* item, int* key, int themax, int* thesize, int* thenum, int* firstfree,
+extern "C" void w_removeNums(long long* item, long long* key, int themax, int* thesize, int* thenum, int* firstfree,
                              const int* nums, int n, int* perm)
 {
    MKSET(s);
@@ -212,7 +205,7 @@ extern "C" void w_removeNums(int* item, int* key, int themax, int* thesize, int*
 #endif
 
 #ifdef INST_clear
-extern "C" void w_clear(int* item, int* key, int themax, int* thesize, int* thenum, int* firstfree)
+extern "C" void w_clear(long long* item, long long* key, int themax, int* thesize, int* thenum, int* firstfree)
 {
    MKSET(s);
    s.clear();
